@@ -47,7 +47,57 @@ def run(p: Project, tier: str) -> Result:
     check_generators(p, r)
     check_consult_sites(p, r)
     check_policy_stored_unchanged(p, r)
+    check_edge_lists_duplicate_free(p, r)
     return r
+
+
+def check_edge_lists_duplicate_free(p, r):
+    """R10: an index selects an edge, and `len(self.<x>_edges)` is the range of valid indices, only while every edge occurs once in the list.  Nodes
+    accept their edges in the constructor AND through `Edge.connect` / `add_*_edges` (connect is needed anyway: only it sets src_node / dest_node),
+    so every registration is guarded: on every completing path an `….in_edges.append(e)` / `….out_edges.append(e)` is preceded by a test that `e` is
+    not in that list yet."""
+    r.rule('C15.R10', 'an edge is registered in a node\'s edge list at most once (membership test dominates every append)', 6)
+    n = 0
+    for ci in p.classes.values():
+        for fi in ci.methods.values():
+            if fi.name == '__init__':
+                continue
+            sites = [c for c in walk_no_nested(fi.node) if isinstance(c, ast.Call) and isinstance(c.func, ast.Attribute) and c.func.attr == 'append'
+                     and isinstance(c.func.value, ast.Attribute) and c.func.value.attr in ('in_edges', 'out_edges') and len(c.args) == 1]
+            if not sites:
+                continue
+            r.analysed_functions.add(fi.key)
+            ex = paths.Explorer(p, ci.key, tracked=set(), atomic={m for m in ci.methods if m != fi.name}, unroll=1, interrupt_edges=False)
+            state = {}
+            for pa in ex.paths(fi):
+                if pa.raises:
+                    continue
+                evs = pa.events
+                for i, e in enumerate(evs):
+                    if e.kind == 'xcall' and e.name.endswith(('.in_edges.append', '.out_edges.append')) and e.args:
+                        lst = e.name.rsplit('.', 2)[1]
+                        key = f'{fi.key}::registers-once({e.name[:-len(".append")]})'
+                        guarded = False
+                        for c in evs[:i]:
+                            ops = c.d.get('operands') if c.kind == 'cond' else None
+                            if ops and ops[0] in ('NotIn', 'In') and ops[1] == e.args[0] and isinstance(ops[2], tuple) and ops[2] and \
+                                    ((ops[2][0] == 'attr' and ops[2][2] == lst) or ops[2] == ('self', lst)):
+                                if (ops[0] == 'NotIn') == bool(c.polarity):
+                                    guarded = True
+                        rec = state.setdefault(key, [True, e, pa])
+                        if not guarded and rec[0]:
+                            state[key] = [False, e, pa]
+            for key, (ok, e, pa) in sorted(state.items()):
+                n += 1
+                if ok:
+                    r.ok('C15.R10', key, 'appended only when not yet in the list', src(fi.module), e.line)
+                else:
+                    r.fail('C15.R10', key, f'`{e.name}` can run for an edge that is already in the list (no membership test on this path): a node built with its '
+                                           f'edges in the constructor and then connected holds every edge twice - `len(edges)` no longer is the number of edges, a '
+                                           f'constant or round-robin index beyond it is accepted and wraps onto another edge, FIRST_AVAILABLE reserves twice on one store',
+                           src(fi.module), e.line, pa.describe())
+    if n < 6:
+        raise AnalysisError(f'C15.R10: only {n} registration sites of in_edges / out_edges found')
 
 
 def check_policy_stored_unchanged(p, r):
